@@ -9,7 +9,7 @@ import (
 )
 
 var fieldNames = []string{"Package", "Version", "Description", "Depends", "Source", "Maintainer", "Architecture", "X-Foo", "XB-Bar", "Field.name", "a", "1st",
-	"Foo+Bar", "K/v", "Foo_bar", "Files", "Checksums-Sha256", "Homepage", "Vcs-Git", "X", "Tag", "Section", "Priority", "x-lower", "UPPER", "Bugs", "Origin", "Z~z"}
+	"Foo+Bar", "K/v", "Foo_bar", "Order", "Values", "Files", "Checksums-Sha256", "Homepage", "Vcs-Git", "X", "Tag", "Section", "Priority", "x-lower", "UPPER", "Bugs", "Origin", "Z~z"}
 
 const valAlpha = "abcdefghijklmnopqrstuvwxyzABCDEFGHIJKLMNOPQRSTUVWXYZ0123456789.,:;-_+~()<>[]=|/@#!$%&*'\"{}"
 
@@ -115,7 +115,13 @@ func Deb822Doc(r *core.Rand) model.Doc {
 		}
 		p.Sep = r.Pick3(1, 1, 2, 3)
 		p.Comments = comments(r, 10)
+		if r.Chance(1, 8) {
+			p.Loose = []string{" a free-standing comment block", "Foo: x"}[:r.Range(1, 2)]
+		}
 		d.Paras = append(d.Paras, p)
+	}
+	if r.Chance(1, 8) {
+		d.LeadLoose = []string{" licence header", ""}[:r.Range(1, 2)]
 	}
 	if np > 0 {
 		last := &d.Paras[np-1]
